@@ -102,7 +102,7 @@ type linAn struct {
 	exprs  map[ssa.Value]lin
 	stored map[string]bool // field names the function stores to (their lengths are not stable)
 	inLen  map[ssa.Value]bool
-	storesTo map[string][]*ssa.Store
+	storesTo map[string][]ssa.Instruction
 	reachMemo map[*ssa.BasicBlock]map[*ssa.BasicBlock]bool
 }
 
@@ -147,13 +147,22 @@ func (a *linAn) reaches(from, to ssa.Instruction) bool {
 
 func newLinAn(b *Body, fn *ssa.Function) *linAn {
 	a := &linAn{b: b, fn: fn, exprs: map[ssa.Value]lin{}, stored: map[string]bool{}}
-	a.storesTo = map[string][]*ssa.Store{}
+	a.storesTo = map[string][]ssa.Instruction{}
 	allInstrs(fn, func(i ssa.Instruction) {
 		if st, ok := i.(*ssa.Store); ok {
 			if fa, ok := st.Addr.(*ssa.FieldAddr); ok {
 				n := fieldName(fa.X.Type(), fa.Field)
 				a.stored[n] = true
 				a.storesTo[n] = append(a.storesTo[n], st)
+			}
+		}
+		// the address of a field handed to a call: the callee may write it
+		if fa, ok := i.(*ssa.FieldAddr); ok {
+			for _, r := range *fa.Referrers() {
+				if ci, ok := r.(ssa.CallInstruction); ok {
+					n := fieldName(fa.X.Type(), fa.Field)
+					a.storesTo[n] = append(a.storesTo[n], ci)
+				}
 			}
 		}
 	})
@@ -168,6 +177,11 @@ func (a *linAn) accessPath(v ssa.Value, depth int) (string, bool) {
 	switch x := v.(type) {
 	case *ssa.Parameter:
 		return x.Name(), true
+	case *ssa.Alloc:
+		// a pointer to an object allocated here: its own name
+		if x.Heap {
+			return "new@" + x.Name(), true
+		}
 	case *ssa.UnOp:
 		if x.Op != token.MUL {
 			return "", false
